@@ -26,12 +26,13 @@ PROPS["C01"] = {
             P("test", "VerifFileRoundTrip", must_reach=("end", "largebytes", "pb-root", "plain-bytes-node"), w=2, k=1, maxn=6),
             P("test", "VerifFileRoundTrip", w=3, k=2, maxn=4, minlen=1),
             P("test", "VerifFileRoundTrip", w=2, k=1, maxn=3, distinct=0),
-            P("test", "VerifReaderMenu", must_reach=("end", "cidv0", "pb-leaf", "no-filesize", "no-blocksizes", "trickle")),
+            P("test", "VerifReaderMenu", must_reach=("end", "cidv0", "pb-leaf", "no-filesize", "no-blocksizes")),
         ],
         "thorough": [
-            P("test", "VerifFileRoundTrip", must_reach=("end", "largebytes", "pb-root", "plain-bytes-node"), w=2, k=1, maxn=17, maxbuf=5),
-            P("test", "VerifFileRoundTrip", w=3, k=1, maxn=28, minlen=9, maxbuf=2),
-            P("test", "VerifFileRoundTrip", w=4, k=1, maxn=17, minlen=5, maxbuf=2),
+            P("test", "VerifFileRoundTrip", must_reach=("end", "largebytes", "pb-root", "plain-bytes-node"), w=2, k=1, maxn=33, maxbuf=5),
+            P("test", "VerifFileRoundTrip", w=3, k=1, maxn=40, minlen=9, maxbuf=3),
+            P("test", "VerifFileRoundTrip", w=4, k=1, maxn=40, minlen=5, maxbuf=3),
+            P("test", "VerifFileRoundTrip", w=5, k=1, maxn=27, minlen=24, maxbuf=2),
             P("test", "VerifFileRoundTrip", w=2, k=3, maxn=5, maxbuf=5),
             P("test", "VerifFileRoundTrip", w=2, k=1, maxn=5, distinct=0),
             P("test", "VerifReaderMenu", must_reach=("end", "cidv0", "pb-leaf", "no-filesize", "no-blocksizes", "trickle"), deep=1),
@@ -39,7 +40,7 @@ PROPS["C01"] = {
     },
     "bounds": {
         "quick": "builder->reader: all contents of 0..6 size-1 chunks at width 2 (3 interior levels reached at 5), 1..8 bytes in size-2 chunks at width 3, buffers 1..3, direct/lazy/preload; free chunk aliasing for <=3 chunks; reader over hand-assembled DAG menu (raw/dag-pb leaves, inline data, FileSize/BlockSizes present or absent, CIDv0/v1, trickle-like mixed depth) with <=2 children per node, depth <=2",
-        "thorough": "width 2: 0..17 chunks (5 levels); width 3: 9..28; width 4: 5..17; size-3 chunks; buffers 1..5; free aliasing <=5 chunks; reader menu depth 3",
+        "thorough": "width 2: 0..33 chunks (7 levels); width 3: 9..40; width 4: 5..40; width 5: 24..27 (around 5^2); size-3 chunks; buffers 1..5; free aliasing <=5 chunks; reader menu depth 3 (slimmed below the top node)",
     },
     "assumptions": ["size-K chunker only (real boxo SizeSplitter is executed); content-defined chunkers (rabin, buzhash) are outside the claim",
                     "model LinkSystem: real codecs and Store/Load paths, collision-free model hash instead of SHA-256"],
